@@ -9,7 +9,7 @@ from hypothesis import strategies as st
 from vf import core, diff, sem
 from vf.core import Stats, Violation
 from vf.diff import Trivial
-from vf.gen import progs
+from vf.gen import full, progs
 
 ID = "C02"
 RULE = (
@@ -93,7 +93,7 @@ def cases(draw, switches):
     c = draw(progs.control_programs(switches))
     complete_init(c["prog"])
     c["paren_unary"] = "paren_unary" in switches
-    return c
+    return full.add_layout(draw, c, switches, key="source_override")
 
 
 def campaign(seed, n, switches=frozenset()):
@@ -101,6 +101,8 @@ def campaign(seed, n, switches=frozenset()):
 
     def body(case):
         meta = case.pop("_meta")
+        if meta.get("drawn_layout"):
+            stats.classes["drawn_layout"] += 1
         case = dict(case)
         check_case(case)
         triv = case.get("_trivial")
